@@ -30,18 +30,20 @@ pub fn spec_step(s: Abs, op: Op, threshold: u32) -> (Abs, bool) {
 pub fn st_of(s: State) -> u8 { match s { State::Closed => 0, State::Open => 1, State::HalfOpen => 2 } }
 pub fn st_from(k: u8) -> State { match k % 3 { 0 => State::Closed, 1 => State::Open, _ => State::HalfOpen } }
 
-#[cfg(kani)] pub static mut VPV_ELAPSED_NS: u64 = 0;
-#[cfg(kani)] pub fn stub_elapsed(_i: &Instant) -> Duration { Duration::from_nanos(unsafe { VPV_ELAPSED_NS }) }
+#[cfg(kani)] pub static mut VPV_ELAPSED: (u64, u32) = (0, 0);
+#[cfg(kani)] pub fn stub_elapsed(_i: &Instant) -> Duration { let (s, n) = unsafe { VPV_ELAPSED }; Duration::new(s, n) }
+/// a Duration from symbolic (secs, nanos) without any division; None if out of the modelled range
+pub fn dur(secs: u64, nanos: u32) -> Option<Duration> { if nanos < 1_000_000_000 && secs < (1u64 << 40) { Some(Duration::new(secs, nanos)) } else { None } }
 #[cfg(kani)] pub fn stub_now() -> Instant { unsafe { std::mem::transmute::<(i64, u32), Instant>((1, 0)) } }
 
 /// a breaker in an arbitrary inner state whose last failure lies `elapsed_ns` in the past
-pub fn mk(st: u8, fails: u32, threshold: u32, timeout_ns: u64, has_last: bool, elapsed_ns: u64) -> CircuitBreaker {
+pub fn mk(st: u8, fails: u32, threshold: u32, timeout: Duration, has_last: bool, elapsed: Duration) -> CircuitBreaker {
     #[cfg(kani)]
-    let last = { unsafe { VPV_ELAPSED_NS = elapsed_ns; } if has_last { Some(stub_now()) } else { None } };
+    let last = { unsafe { VPV_ELAPSED = (elapsed.as_secs(), elapsed.subsec_nanos()); } if has_last { Some(stub_now()) } else { None } };
     #[cfg(not(kani))]
-    let last = if has_last { Instant::now().checked_sub(Duration::from_nanos(elapsed_ns)) } else { None };
+    let last = if has_last { Instant::now().checked_sub(elapsed) } else { None };
     CircuitBreaker {
-        config: CircuitBreakerConfig { failure_threshold: threshold, reset_timeout: Duration::from_nanos(timeout_ns) },
+        config: CircuitBreakerConfig { failure_threshold: threshold, reset_timeout: timeout },
         state: Mutex::new(InnerState { state: st_from(st), consecutive_failures: fails, last_failure_time: last }),
         failures_total: AtomicU64::new(0), successes_total: AtomicU64::new(0), rejections_total: AtomicU64::new(0),
     }
@@ -51,32 +53,33 @@ pub fn abs_of(cb: &CircuitBreaker) -> Abs {
     Abs { st: st_of(g.state), fails: g.consecutive_failures }
 }
 
-vpv_cell!(c45_new, "C45/new/starts-closed-with-zero-failures-and-admits", (threshold: u32, timeout_ns: u64), {
-    let cb = CircuitBreaker::new(CircuitBreakerConfig { failure_threshold: threshold, reset_timeout: Duration::from_nanos(timeout_ns) });
+vpv_cell!(c45_new, "C45/new/starts-closed-with-zero-failures-and-admits", (threshold: u32, ts: u64, tn: u32), {
+    let Some(timeout) = dur(ts, tn) else { return true; };
+    let cb = CircuitBreaker::new(CircuitBreakerConfig { failure_threshold: threshold, reset_timeout: timeout });
     abs_of(&cb) == Abs { st: 0, fails: 0 } && cb.state() == State::Closed
 });
 
 vpv_cell!(#[kani::stub(std::time::Instant::elapsed, stub_elapsed)] #[kani::stub(std::time::Instant::now, stub_now)]
   c45_allow_request, "C45/allow_request/implements-spec_step (Closed admits; Open rejects until reset timeout then admits ONE probe; HalfOpen admits nothing)",
-  (st: u8, fails: u32, threshold: u32, timeout_ns: u64, has_last: bool, elapsed_ns: u64), {
+  (st: u8, fails: u32, threshold: u32, ts: u64, tn: u32, has_last: bool, es: u64, en: u32), {
     if threshold == 0 { return true; }
-    // margin so that the native replay (real clock keeps running) cannot straddle the boundary
-    if elapsed_ns > (1u64 << 62) || timeout_ns > (1u64 << 62) { return true; }
-    #[cfg(not(kani))] if elapsed_ns < timeout_ns && timeout_ns - elapsed_ns < 1_000_000_000 { return true; }
-    let cb = mk(st, fails, threshold, timeout_ns, has_last, elapsed_ns);
+    let (Some(timeout), Some(elapsed)) = (dur(ts, tn), dur(es, en)) else { return true; };
+    // native replay only: the real clock keeps running, stay one second clear of the boundary
+    #[cfg(not(kani))] if elapsed < timeout && timeout - elapsed < Duration::from_secs(1) { return true; }
+    let cb = mk(st, fails, threshold, timeout, has_last, elapsed);
     let before = abs_of(&cb);
     let admitted = cb.allow_request();
     let after = abs_of(&cb);
-    let te = has_last && elapsed_ns >= timeout_ns;
+    let te = has_last && elapsed >= timeout;
     let (want, want_adm) = spec_step(before, Op::Allow { timeout_elapsed: te }, threshold);
     let rej = cb.rejections_total.load(AO::Relaxed);
     after == want && admitted == want_adm && (admitted || rej == 1) && (!admitted || rej == 0)
 });
 
 vpv_cell!(c45_record_success, "C45/record_success/implements-spec_step (zeroes the counter; HalfOpen closes)",
-  (st: u8, fails: u32, threshold: u32, timeout_ns: u64), {
+  (st: u8, fails: u32, threshold: u32), {
     if threshold == 0 { return true; }
-    let cb = mk(st, fails, threshold, timeout_ns, false, 0);
+    let cb = mk(st, fails, threshold, Duration::from_secs(30), false, Duration::ZERO);
     let before = abs_of(&cb);
     cb.record_success();
     let (want, _) = spec_step(before, Op::Success, threshold);
@@ -85,10 +88,10 @@ vpv_cell!(c45_record_success, "C45/record_success/implements-spec_step (zeroes t
 
 vpv_cell!(#[kani::stub(std::time::Instant::elapsed, stub_elapsed)] #[kani::stub(std::time::Instant::now, stub_now)]
   c45_record_failure, "C45/record_failure/implements-spec_step (Closed opens iff failures+1 >= threshold; HalfOpen reopens) and records the failure time",
-  (st: u8, fails: u32, threshold: u32, timeout_ns: u64), {
+  (st: u8, fails: u32, threshold: u32), {
     if threshold == 0 { return true; }
     if fails == u32::MAX { return true; }      // machine range: 2^32 consecutive failures (listed as an assumption)
-    let cb = mk(st, fails, threshold, timeout_ns, false, 0);
+    let cb = mk(st, fails, threshold, Duration::from_secs(30), false, Duration::ZERO);
     let before = abs_of(&cb);
     cb.record_failure();
     let (want, _) = spec_step(before, Op::Failure, threshold);
@@ -99,9 +102,10 @@ vpv_cell!(#[kani::stub(std::time::Instant::elapsed, stub_elapsed)] #[kani::stub(
 // two consecutive allow_request calls once the timeout has passed: exactly one probe is admitted
 vpv_cell!(#[kani::stub(std::time::Instant::elapsed, stub_elapsed)] #[kani::stub(std::time::Instant::now, stub_now)]
   c45_single_probe, "C45/allow_request x2/half-open admits exactly one probe until it completes",
-  (fails: u32, threshold: u32, timeout_ns: u64, elapsed_ns: u64), {
-    if threshold == 0 || elapsed_ns < timeout_ns || elapsed_ns > (1u64 << 62) { return true; }
-    let cb = mk(1, fails, threshold, timeout_ns, true, elapsed_ns);
+  (fails: u32, threshold: u32, ts: u64, tn: u32, es: u64, en: u32), {
+    let (Some(timeout), Some(elapsed)) = (dur(ts, tn), dur(es, en)) else { return true; };
+    if threshold == 0 || elapsed < timeout { return true; }
+    let cb = mk(1, fails, threshold, timeout, true, elapsed);
     let first = cb.allow_request();
     let second = cb.allow_request();
     let third = cb.allow_request();
